@@ -60,6 +60,8 @@ def handleSP : P String := do
   let firstOnly ← P.bool
   let withPaths ← P.bool
   let inv ← P.nat
+  -- the implementation saw weights and cutoff divided by `wdiv` (a power of two) and its distances were multiplied back
+  let _wdiv ← P.nat
   let rest ← get
   let nodeObjs := nodes.map fun n => Node.mk n none
   match Store.newFrom sp nodeObjs edges with
